@@ -79,6 +79,17 @@ impl OrdExt for InOrder {
     }
 }
 
+/// Table-style setup macro: all `matching!` invocations it expands to report the line of the one
+/// `eq_table!` invocation, with the same rendered text `eq!(..)`, but different operands.
+macro_rules! eq_table {
+    ($m:ident, $F:ty, $sel:expr; $($lit:literal),*) => {
+        match $sel {
+            $( $lit => { let f: &dyn Fn(&mut Matching<$F>) = unimock::matching!(eq!(&$lit)); f($m) } )*
+            _ => panic!("HARNESS: MacroEq operand out of range"),
+        }
+    };
+}
+
 macro_rules! family {
     ($modname:ident, $bound:ident, $answer:ty, $uty:ty) => {
         pub mod $modname {
@@ -105,6 +116,10 @@ macro_rules! family {
                             false
                         });
                         m.pat_debug(pat_text(id), PAT_FILE, id as u32);
+                    }
+                    MatcherKind::MacroEq(v) => {
+                        // a table-style setup macro: every arm's matching! reports the line of this one invocation
+                        eq_table!(m, F, v % 8; 0u8, 1u8, 2u8, 3u8, 4u8, 5u8, 6u8, 7u8);
                     }
                     MatcherKind::Macro(k) => {
                         // the pattern as a user writes it; accept sets are MACRO_MASKS[k]
